@@ -202,6 +202,7 @@ func retryMain(args []string) {
 		hdr       string // model encoding
 		hdrValue  string // real header value ("" = absent)
 		tolerance int64
+		madeAt    time.Time // when the Retry-After date was computed (the wait shrinks as time passes)
 		sweep     bool
 	}
 	var bcs []bcase
@@ -229,7 +230,7 @@ func retryMain(args []string) {
 			if rnd.Bool() {
 				c.hdrValue = t.Format(time.RFC3339)
 			}
-			c.hdr, c.tolerance = "d:"+strconv.FormatInt(int64(delta), 10), int64(3*time.Second)
+			c.hdr, c.tolerance, c.madeAt = "d:"+strconv.FormatInt(int64(delta), 10), int64(3*time.Second), time.Now()
 		default:
 			c.hdr, c.hdrValue = "g", hx.Pick(rnd, []string{"soon", "12s", "1.5", "", " 3", "0x10"})
 		}
@@ -342,7 +343,11 @@ func retryMain(args []string) {
 		}
 		blines = append(blines, line)
 		bwant = append(bwant, strconv.FormatInt(got, 10))
-		btol = append(btol, c.tolerance)
+		tol := c.tolerance
+		if !c.madeAt.IsZero() {
+			tol += int64(time.Since(c.madeAt)) // the cases are generated first (400 000 of them in the thorough tier) and evaluated later
+		}
+		btol = append(btol, tol)
 	}
 	// ---- correspondence ----------------------------------------------------------------------
 	if drv != nil {
